@@ -84,6 +84,7 @@ def run_impl(hists, impl, wd, jobs=8, batch=30, tag='b'):
         for j in range(0, len(idxs), batch):
             batches.append(idxs[j:j + batch])
     res = [None] * len(hists)
+    slow_retries = [6]
 
     def one(args):
         bi, idxs = args
@@ -100,7 +101,11 @@ def run_impl(hists, impl, wd, jobs=8, batch=30, tag='b'):
             except (KeyError, IndexError, ValueError):
                 # rerun alone
                 t1, b1 = G.batch_script([h])
-                r1 = S.run_script(t1, impl_path(impl), None, wd, '%s%d-%d' % (tag, bi, i), want_model=False, timeout=40)
+                r1 = S.run_script(t1, impl_path(impl), None, wd, '%s%d-%d' % (tag, bi, i), want_model=False, timeout=60)
+                if r1.hang and slow_retries[0] > 0:
+                    # a loaded machine can exceed the watchdog: one patient retry before calling it a hang
+                    slow_retries[0] -= 1
+                    r1 = S.run_script(t1, impl_path(impl), None, wd, '%s%d-%dr' % (tag, bi, i), want_model=False, timeout=240)
                 try:
                     if r1.hang:
                         out.append((i, dict(h=h, status='hang', lay=None, obs=None, detail='watchdog')))
